@@ -167,7 +167,7 @@ func checkSourceMix(c *core.Ctx, rule string, fns []*ssa.Function) int {
 						for _, o := range append([]ssa.Value{s.Val}, core.Origins(s.Val)...) {
 							leaves = append(leaves, o)
 							if call, ok := core.Unwrap(o).(*ssa.Call); ok {
-								for _, a := range call.Call.Args {
+								for _, a := range core.NormCall(&call.Call).Args {
 									leaves = append(leaves, a)
 									leaves = append(leaves, core.Origins(a)...)
 								}
